@@ -11,8 +11,8 @@ import gen, pipeline, model, impl, shex_text, shacl_text, findings as F, oracle
 from props import base
 from shexer import consts as C
 
-PROPS_MODULES = ["ShexerModel.Props.C05", "ShexerModel.Props.C05b"]
-DEPS = []
+PROPS_MODULES = ["ShexerModel.Props.C05", "ShexerModel.Props.C05b", "ShexerModel.Props.GenStr"]
+DEPS = ["S.build_shapes_name_for_class_uri"]
 replay = base.replay
 
 COLLIDING = ['', 'weso-s', 'shapes', 'w-shapes']
